@@ -5,11 +5,12 @@ from vlib.core import Property, Suite, cstr, cbytes, clist, cbool, copt
 TOK = ['a', 'Z', '-', '\\*', 'é', '€', '\u0100', '\u2a00']        # exhaustive part: 1, 2 and 3 byte characters, escaped star
 HOSTILE = ['*', '?', '\\', '\\\\', '\\?', ' ', '=', '+', '/', '\x00', '\x7f', '\x80', '\u07ff', '\u0800',
            '\ud7ff', '\ue000', '\ufeff', '\ufffe', '\uffff', '\U00010000', '\U0001f600', '\U0010ffff',
-           '\U00010080', '\u5c00', '\u3f00', '\ua9c3', '\ud800', '\udfff', '%', 'A', '0', '~', 'ÿ']
+           '\U00010080', '\u5c00', '\u3f00', '\ua9c3', '\ud800', '\udfff', '%', 'A', '0', '~', 'ÿ', '\n', '\r', '\t']
 HOSTILE_STR = ['\U00010080\u0080', '\U00010080\u0080a', 'a\U00010080\u0080', '\ua9c3', '\ua9c3\ua9c3', '\u2a00\u5c00\u3f00',
                '%x%', '\\', 'a\\', '\\*\\?', '   ', ' a', 'a ', '\ud800', 'a\udc00b', '\ud83d\ude00', '\ude00\ud83d', '*', 'a*', '*a*', '?a',
                'a\\*b', 'C:\\Windows\\*', '/bin/bash', 'http://', 'IEX (New-Object Net.WebClient)', 'ping -n', 'äb', '€', '€€', 'aä', 'äöü',
-               '\ufeff', '\ufeffa', '=', '==', 'a=', '\x00', '\x00\x00\x00', 'ÿþ']
+               '\ufeff', '\ufeffa', '=', '==', 'a=', '\x00', '\x00\x00\x00', 'ÿþ',
+               'a\nb', 'line1\r\nline2', 'IEX\n(iwr x)', '\n', 'a\tb']
 
 ENC = ["wide", "utf16be", "utf16"]
 B64 = ["base64", "base64offset"]
